@@ -187,4 +187,421 @@ def core (c : OObj) : Nat × Nat × Kind × Int × Option Int × List Int × Opt
 theorem resolve_core (news : List OObj) : (resolve news).map core = news.map core := by
   simp [resolve, core, Function.comp_def]
 
+theorem map_filter_core (f : OObj → OObj) (hf : ∀ c, core (f c) = core c)
+    (p : (Nat × Nat × Kind × Int × Option Int × List Int × Option String × Bool) → Bool) (l : List OObj) :
+    ((l.map f).filter (fun c => p (core c))).map core = (l.filter (fun c => p (core c))).map core := by
+  induction l with
+  | nil => simp
+  | cons a as ih =>
+    simp only [List.map_cons, List.filter_cons, hf a]
+    split
+    · simp [ih, hf a]
+    · exact ih
+
+/-- kept for the per-visit statement: not a signature/clef (those are subject to suppression) and not the
+extra fermata taken from a segment's end -/
+def keepP (c : OObj) : Bool := !c.kind.isSig && !c.extra
+
+theorem fermataPass_extra (v : Visit) (k : Nat) :
+    ∀ (l : List (Nat × Obj)) (c : OObj), c ∈ fermataPass v k l →
+      c.extra = true ∧ c.kind = .fermata ∧ c.visit = k ∧ c.refs = [] ∧ c.start = v.e + (v.off - v.s) := by
+  intro l
+  induction l with
+  | nil => intro c h; simp [fermataPass] at h
+  | cons q rest ih =>
+    intro c h
+    obtain ⟨i, o⟩ := q
+    simp only [fermataPass] at h
+    split at h
+    · rename_i hq
+      simp only [List.mem_cons] at h
+      rcases h with h | h
+      · subst h; exact ⟨rfl, hq.1, rfl, rfl, rfl⟩
+      · exact ih c h
+    · exact ih c h
+
+theorem copyPass_notExtra (v : Visit) (k : Nat) (l : List (Nat × Obj)) (seen : List OObj) (c : OObj)
+    (h : c ∈ copyPass v k l seen) : c.extra = false ∧ c.visit = k := by
+  obtain ⟨q, _, _, _, rfl⟩ := copyPass_mem v k l seen c h
+  exact ⟨rfl, rfl⟩
+
+/-- per visit: among the objects that are not signatures/clefs, exactly the objects of the window that are not
+of a dropped class are copied, each once, in order, shifted by `off - s`, everything else unchanged -/
+theorem visitCopies_keep (objs : List Obj) (v : Visit) (k : Nat) (out : List OObj) :
+    ((visitCopies objs v k out).filter keepP).map core =
+      ((enum 0 objs).filter (copyable v)).map fun q => core (mkCopy q.1 k q.2 (v.off - v.s)) := by
+  unfold visitCopies
+  rw [List.filter_append, List.map_append]
+  have h2 : (fermataPass v k (enum 0 objs)).filter keepP = [] := by
+    rw [List.filter_eq_nil_iff]
+    intro c hc
+    have := (fermataPass_extra v k _ c hc).1
+    simp [keepP, this]
+  rw [h2, List.map_nil, List.append_nil]
+  have h1 := map_filter_core
+    (fun o => { o with refs := o.refs.map (·.map (resolveRef ((copyPass v k (enum 0 objs) out).map (·.orig)))) })
+    (fun c => rfl) (fun t => !t.2.2.1.isSig && !t.2.2.2.2.2.2.2) (copyPass v k (enum 0 objs) out)
+  have e1 : (fun c : OObj => !(core c).2.2.1.isSig && !(core c).2.2.2.2.2.2.2) = keepP := rfl
+  rw [e1] at h1
+  have hr : resolve (copyPass v k (enum 0 objs) out) =
+      (copyPass v k (enum 0 objs) out).map (fun o => { o with refs := o.refs.map (·.map (resolveRef ((copyPass v k (enum 0 objs) out).map (·.orig)))) }) := rfl
+  rw [hr, h1]
+  have h3 : (copyPass v k (enum 0 objs) out).filter keepP =
+      (copyPass v k (enum 0 objs) out).filter (fun c => !c.kind.isSig) := by
+    apply List.filter_congr
+    intro c hc
+    have := (copyPass_notExtra v k _ _ c hc).1
+    simp [keepP, this]
+  rw [h3, copyPass_nonSig, List.map_map]
+  rfl
+
+/-- the whole unfolded part, objects other than signatures/clefs: visit after visit, the shifted copies of
+the window's objects -/
+theorem variantObjs_keep (objs : List Obj) :
+    ∀ (vs : List Visit) (k : Nat) (out : List OObj),
+      ((variantObjs objs k vs out).filter keepP).map core =
+        (out.filter keepP).map core ++
+          (enum k vs).flatMap fun nv =>
+            ((enum 0 objs).filter (copyable nv.2)).map fun q => core (mkCopy q.1 nv.1 q.2 (nv.2.off - nv.2.s)) := by
+  intro vs
+  induction vs with
+  | nil => intro k out; simp [variantObjs, enum]
+  | cons v vs ih =>
+    intro k out
+    simp only [variantObjs, enum, List.flatMap_cons]
+    rw [ih, List.filter_append, List.map_append, visitCopies_keep, List.append_assoc]
+
+/-! ### nothing of the repeat structure is copied -/
+
+theorem visitCopies_mem (objs : List Obj) (v : Visit) (k : Nat) (out : List OObj) (c : OObj)
+    (h : c ∈ visitCopies objs v k out) :
+    c.visit = k ∧
+    ((c.extra = true ∧ c.kind = .fermata ∧ c.refs = [] ∧ c.start = v.e + (v.off - v.s)) ∨
+     (c.extra = false ∧ ∃ i o, objs[i]? = some o ∧ inWin v o = true ∧ o.kind.dropped = false ∧
+        core c = core (mkCopy i k o (v.off - v.s)) ∧
+        c.refs = o.refs.map (·.map fun j =>
+          if ((copyPass v k (enum 0 objs) out).map (·.orig)).contains j then some j else none))) := by
+  unfold visitCopies at h
+  rw [List.mem_append] at h
+  rcases h with h | h
+  · simp only [resolve, List.mem_map] at h
+    obtain ⟨c0, hc0, rfl⟩ := h
+    obtain ⟨q, hq, hw, hd, rfl⟩ := copyPass_mem v k _ _ c0 hc0
+    obtain ⟨i, o⟩ := q
+    have := (enum_mem objs 0 i o).mp hq
+    refine ⟨rfl, Or.inr ⟨rfl, i, o, by simpa using this.2, hw, hd, rfl, ?_⟩⟩
+    simp [mkCopy, resolveRef, List.map_map, Function.comp_def]
+  · obtain ⟨h1, h2, h3, h4, h5⟩ := fermataPass_extra v k _ c h
+    exact ⟨h3, Or.inl ⟨h1, h2, h4, h5⟩⟩
+
+theorem variantObjs_mem (objs : List Obj) :
+    ∀ (vs : List Visit) (k : Nat) (out : List OObj) (c : OObj), c ∈ variantObjs objs k vs out →
+      c ∈ out ∨ ∃ n v out', vs[n]? = some v ∧ c ∈ visitCopies objs v (k + n) out' := by
+  intro vs
+  induction vs with
+  | nil => intro k out c h; exact Or.inl (by simpa [variantObjs] using h)
+  | cons v vs ih =>
+    intro k out c h
+    simp only [variantObjs] at h
+    rcases ih (k + 1) _ c h with h | ⟨n, v', out', hv, hc⟩
+    · rw [List.mem_append] at h
+      rcases h with h | h
+      · exact Or.inl h
+      · exact Or.inr ⟨0, v, out, by simp, by simpa using h⟩
+    · refine Or.inr ⟨n + 1, v', out', by simpa using hv, ?_⟩
+      have : k + (n + 1) = k + 1 + n := by omega
+      rw [this]; exact hc
+
+theorem variantObjs_sub (objs : List Obj) :
+    ∀ (vs : List Visit) (k : Nat) (out : List OObj) (c : OObj), c ∈ out → c ∈ variantObjs objs k vs out := by
+  intro vs
+  induction vs with
+  | nil => intro k out c h; simpa [variantObjs] using h
+  | cons v vs ih =>
+    intro k out c h
+    simp only [variantObjs]
+    exact ih _ _ c (List.mem_append_left _ h)
+
+/-- membership with the block of the visit it belongs to (the block is part of the result) -/
+theorem variantObjs_mem' (objs : List Obj) :
+    ∀ (vs : List Visit) (k : Nat) (out : List OObj) (c : OObj), c ∈ variantObjs objs k vs out →
+      c ∈ out ∨ ∃ n v out', vs[n]? = some v ∧ c ∈ visitCopies objs v (k + n) out' ∧
+        ∀ c' ∈ visitCopies objs v (k + n) out', c' ∈ variantObjs objs k vs out := by
+  intro vs
+  induction vs with
+  | nil => intro k out c h; exact Or.inl (by simpa [variantObjs] using h)
+  | cons v vs ih =>
+    intro k out c h
+    simp only [variantObjs] at h ⊢
+    rcases ih (k + 1) _ c h with h | ⟨n, v', out', hv, hc, hsub⟩
+    · rw [List.mem_append] at h
+      rcases h with h | h
+      · exact Or.inl h
+      · refine Or.inr ⟨0, v, out, by simp, by simpa using h, ?_⟩
+        intro c' hc'
+        exact variantObjs_sub objs vs _ _ c' (List.mem_append_right _ (by simpa using hc'))
+    · have e : k + (n + 1) = k + 1 + n := by omega
+      refine Or.inr ⟨n + 1, v', out', by simpa using hv, ?_, ?_⟩
+      · rw [e]; exact hc
+      · rw [e]; exact hsub
+
+/-- every visit's block is in the result -/
+theorem variantObjs_block (objs : List Obj) :
+    ∀ (vs : List Visit) (k : Nat) (out : List OObj) (n : Nat) (v : Visit), vs[n]? = some v →
+      ∃ out', ∀ c' ∈ visitCopies objs v (k + n) out', c' ∈ variantObjs objs k vs out := by
+  intro vs
+  induction vs with
+  | nil => intro k out n v h; simp at h
+  | cons w vs ih =>
+    intro k out n v h
+    cases n with
+    | zero =>
+      simp only [List.getElem?_cons_zero, Option.some.injEq] at h
+      subst h
+      refine ⟨out, ?_⟩
+      intro c' hc'
+      simp only [variantObjs]
+      exact variantObjs_sub objs vs _ _ c' (List.mem_append_right _ (by simpa using hc'))
+    | succ n =>
+      simp only [List.getElem?_cons_succ] at h
+      obtain ⟨out', hsub⟩ := ih (k + 1) (out ++ visitCopies objs w k out) n v h
+      have e : k + (n + 1) = k + 1 + n := by omega
+      refine ⟨out', ?_⟩
+      rw [e]
+      simpa [variantObjs] using hsub
+
+/-! ### time points and length -/
+
+theorem insInt_mem (a x : Int) (l : List Int) : x ∈ insInt a l ↔ x = a ∨ x ∈ l := by
+  induction l with
+  | nil => simp [insInt]
+  | cons y ys ih =>
+    simp only [insInt]
+    split
+    · simp
+    · split
+      · rename_i h1 h2
+        subst h2
+        simp
+      · simp only [List.mem_cons, ih]
+        constructor
+        · rintro (h | h | h)
+          · exact Or.inr (Or.inl h)
+          · exact Or.inl h
+          · exact Or.inr (Or.inr h)
+        · rintro (h | h | h)
+          · exact Or.inr (Or.inl h)
+          · exact Or.inl h
+          · exact Or.inr (Or.inr h)
+
+theorem foldl_ins_mem {α : Type} (f : α → Int) (l : List α) (acc : List Int) (t : Int) :
+    t ∈ l.foldl (fun acc x => insInt (f x) acc) acc ↔ t ∈ acc ∨ ∃ x ∈ l, t = f x := by
+  induction l generalizing acc with
+  | nil => simp
+  | cons a as ih =>
+    simp only [List.foldl_cons, ih, insInt_mem, List.mem_cons]
+    constructor
+    · rintro ((h | h) | ⟨x, hx, h⟩)
+      · exact Or.inr ⟨a, Or.inl rfl, h⟩
+      · exact Or.inl h
+      · exact Or.inr ⟨x, Or.inr hx, h⟩
+    · rintro (h | ⟨x, hx | hx, h⟩)
+      · exact Or.inl (Or.inr h)
+      · subst hx; exact Or.inl (Or.inl h)
+      · exact Or.inr ⟨x, hx, h⟩
+
+/-- where the time points of the new part come from -/
+def PointSrc (points : List Int) (vs : List Visit) (out : List OObj) (t : Int) : Prop :=
+  (∃ v ∈ vs, ∃ p ∈ points, v.s ≤ p ∧ p < v.e ∧ t = p + (v.off - v.s)) ∨
+  (∃ c ∈ out, (c.extra = true ∧ t = c.start) ∨ (c.extra = false ∧ c.stp = some t))
+
+theorem shifted_mem (points : List Int) (vs : List Visit) (acc : List Int) (t : Int) :
+    t ∈ shiftedPoints points vs acc ↔
+    t ∈ acc ∨ ∃ v ∈ vs, ∃ p ∈ points, v.s ≤ p ∧ p < v.e ∧ t = p + (v.off - v.s) := by
+  unfold shiftedPoints
+  induction vs generalizing acc with
+  | nil => simp
+  | cons v vs ih =>
+    simp only [List.foldl_cons]
+    rw [ih, foldl_ins_mem]
+    simp only [List.mem_filter, Bool.and_eq_true, decide_eq_true_eq, List.mem_cons]
+    constructor
+    · rintro ((h | ⟨x, ⟨hx, h1, h2⟩, h⟩) | ⟨w, hw, r⟩)
+      · exact Or.inl h
+      · exact Or.inr ⟨v, Or.inl rfl, x, hx, h1, h2, h⟩
+      · exact Or.inr ⟨w, Or.inr hw, r⟩
+    · rintro (h | ⟨w, hw | hw, x, hx, h1, h2, h⟩)
+      · exact Or.inl (Or.inl h)
+      · subst hw; exact Or.inl (Or.inr ⟨x, ⟨hx, h1, h2⟩, h⟩)
+      · exact Or.inr ⟨w, hw, x, hx, h1, h2, h⟩
+
+theorem objPoint_iff (o : OObj) (t : Int) :
+    objPoint o = some t ↔ (o.extra = true ∧ t = o.start) ∨ (o.extra = false ∧ o.stp = some t) := by
+  unfold objPoint
+  cases o.extra <;> simp [eq_comm]
+
+theorem outPoints_mem (out : List OObj) (acc : List Int) (t : Int) :
+    t ∈ outPoints out acc ↔
+    t ∈ acc ∨ ∃ c ∈ out, (c.extra = true ∧ t = c.start) ∨ (c.extra = false ∧ c.stp = some t) := by
+  unfold outPoints
+  induction out generalizing acc with
+  | nil => simp
+  | cons o os ih =>
+    simp only [List.foldl_cons]
+    rw [ih]
+    simp only [List.mem_cons]
+    have key : (t ∈ (match objPoint o with
+        | some t => insInt t acc
+        | none => acc)) ↔ (t ∈ acc ∨ objPoint o = some t) := by
+      cases h : objPoint o with
+      | none => simp
+      | some u => simp [insInt_mem, eq_comm, or_comm]
+    rw [objPoint_iff] at key
+    constructor
+    · rintro (h | ⟨c, hc, r⟩)
+      · rcases key.mp h with h | h
+        · exact Or.inl h
+        · exact Or.inr ⟨o, Or.inl rfl, h⟩
+      · exact Or.inr ⟨c, Or.inr hc, r⟩
+    · rintro (h | ⟨c, hc | hc, r⟩)
+      · exact Or.inl (key.mpr (Or.inl h))
+      · subst hc; exact Or.inl (key.mpr (Or.inr r))
+      · exact Or.inr ⟨c, hc, r⟩
+
+theorem variantPoints_mem (points : List Int) (vs : List Visit) (out : List OObj) (t : Int) :
+    t ∈ variantPoints points vs out ↔ PointSrc points vs out t := by
+  unfold variantPoints PointSrc
+  rw [outPoints_mem, shifted_mem]
+  simp
+
+theorem listMax_eq (l : List Int) (m : Int) (hm : m ∈ l) (hle : ∀ x ∈ l, x ≤ m) : listMax l = some m := by
+  induction l with
+  | nil => simp at hm
+  | cons x xs ih =>
+    simp only [listMax]
+    cases hxs : listMax xs with
+    | none =>
+      cases xs with
+      | nil =>
+        simp only [List.mem_singleton] at hm
+        simp [hm]
+      | cons y ys =>
+        simp only [listMax] at hxs
+        split at hxs <;> simp at hxs
+    | some m' =>
+      simp only [List.mem_cons] at hm
+      by_cases hmx : m ∈ xs
+      · have := ih hmx (fun y hy => hle y (List.mem_cons_of_mem _ hy))
+        rw [hxs] at this
+        simp only [Option.some.injEq] at this
+        subst this
+        have hx := hle x List.mem_cons_self
+        have : ¬ m' < x := by omega
+        simp [this]
+      · rcases hm with hm | hm
+        · subst hm
+          -- m' is an element of xs, hence ≤ m
+          have hm' : m' ∈ xs := by
+            clear ih hle hmx
+            induction xs generalizing m' with
+            | nil => simp [listMax] at hxs
+            | cons y ys ih2 =>
+              simp only [listMax] at hxs
+              cases hys : listMax ys with
+              | none => simp only [hys, Option.some.injEq] at hxs; subst hxs; exact List.mem_cons_self
+              | some m2 =>
+                simp only [hys, Option.some.injEq] at hxs
+                split at hxs
+                · subst hxs; exact List.mem_cons_self
+                · subst hxs; exact List.mem_cons_of_mem _ (ih2 _ hys)
+          have := hle m' (List.mem_cons_of_mem _ hm')
+          by_cases hlt : m' < m
+          · simp [hlt]
+          · have : m' = m := by omega
+            simp [this]
+        · exact absurd hm hmx
+
+theorem listMin_eq (l : List Int) (m : Int) (hm : m ∈ l) (hle : ∀ x ∈ l, m ≤ x) : listMin l = some m := by
+  induction l with
+  | nil => simp at hm
+  | cons x xs ih =>
+    simp only [listMin]
+    cases hxs : listMin xs with
+    | none =>
+      cases xs with
+      | nil =>
+        simp only [List.mem_singleton] at hm
+        simp [hm]
+      | cons y ys =>
+        simp only [listMin] at hxs
+        split at hxs <;> simp at hxs
+    | some m' =>
+      simp only [List.mem_cons] at hm
+      by_cases hmx : m ∈ xs
+      · have := ih hmx (fun y hy => hle y (List.mem_cons_of_mem _ hy))
+        rw [hxs] at this
+        simp only [Option.some.injEq] at this
+        subst this
+        have hx := hle x List.mem_cons_self
+        have : ¬ x < m' := by omega
+        simp [this]
+      · rcases hm with hm | hm
+        · subst hm
+          have hm' : m' ∈ xs := by
+            clear ih hle hmx
+            induction xs generalizing m' with
+            | nil => simp [listMin] at hxs
+            | cons y ys ih2 =>
+              simp only [listMin] at hxs
+              cases hys : listMin ys with
+              | none => simp only [hys, Option.some.injEq] at hxs; subst hxs; exact List.mem_cons_self
+              | some m2 =>
+                simp only [hys, Option.some.injEq] at hxs
+                split at hxs
+                · subst hxs; exact List.mem_cons_self
+                · subst hxs; exact List.mem_cons_of_mem _ (ih2 _ hys)
+          have := hle m' (List.mem_cons_of_mem _ hm')
+          by_cases hlt : m < m'
+          · simp [hlt]
+          · have : m' = m := by omega
+            simp [this]
+        · exact absurd hm hmx
+
+/-- offsets stay inside `[off, off + total]`; the last visit ends at the total -/
+theorem offsets_bounds :
+    ∀ (vs : List Visit) (off : Int), OffsetsOK off vs → (∀ v ∈ vs, v.s < v.e) →
+      (∀ v ∈ vs, off ≤ v.off ∧ v.off + (v.e - v.s) ≤ off + sumInt (visitLens vs)) ∧
+      (∀ v, vs.getLast? = some v → v.off + (v.e - v.s) = off + sumInt (visitLens vs)) ∧
+      (∀ v, vs.head? = some v → v.off = off) ∧ 0 ≤ sumInt (visitLens vs) := by
+  intro vs
+  induction vs with
+  | nil => intro off _ _; simp [visitLens, sumInt]
+  | cons w ws ih =>
+    intro off hok hpos
+    obtain ⟨h0, hrest⟩ := hok
+    have hw := hpos w List.mem_cons_self
+    obtain ⟨i1, i2, i3, i4⟩ := ih _ hrest (fun v hv => hpos v (List.mem_cons_of_mem _ hv))
+    simp only [visitLens, List.map_cons, sumInt] at *
+    refine ⟨?_, ?_, ?_, by omega⟩
+    · intro v hv
+      simp only [List.mem_cons] at hv
+      rcases hv with hv | hv
+      · subst hv; omega
+      · have := i1 v hv; omega
+    · intro v hv
+      cases ws with
+      | nil =>
+        simp only [List.getLast?_singleton, Option.some.injEq] at hv
+        subst hv
+        simp [sumInt]; omega
+      | cons x xs =>
+        have : (x :: xs).getLast? = some v := by simpa [List.getLast?_cons_cons] using hv
+        have := i2 v this
+        omega
+    · intro v hv
+      simp only [List.head?_cons, Option.some.injEq] at hv
+      subst hv; exact h0
+
+theorem fermata_not_dropped : Kind.dropped .fermata = false := rfl
+
 end C09
